@@ -2,7 +2,7 @@
     the family number; the verdict says whether the implementation's observed
     behaviour equals the model's. *)
 From Coq Require Import List ZArith Bool.
-From FF Require Import Sx Dispatch TaskTree StoreModel StoreCheck PreCheck EngineMon TaskRun ShareData Vars KeeperCheck MutexCheck Commander.
+From FF Require Import Sx Dispatch TaskTree StoreModel StoreCheck PreCheck EngineMon TaskRun ShareData Vars KeeperCheck MutexCheck Commander ShutdownCheck.
 Import ListNotations.
 Local Open Scope Z_scope.
 
@@ -18,6 +18,7 @@ Definition run_monitor (family : Z) (c : sx) : option bool :=
   | 61 => monitor_alive c
   | 70 => monitor_mutex c
   | 80 => monitor_admit c
+  | 90 => monitor_skel c
   | _ => if (100 <? family) && (family <? 200) then monitor_journal (family - 100) c else None
   end.
 
@@ -42,6 +43,7 @@ Definition run_case (family : Z) (c : sx) : verdict :=
   | 61 => check_keeper c
   | 70 => check_mutex c
   | 80 => check_admit c
+  | 90 => check_skel c
   | _ => if (100 <? family) && (family <? 200)
          then match check_journal_store c with OkCase => check_runs c | v => v end
          else BadCase 0
